@@ -441,10 +441,17 @@ def load_known() -> list[dict]:
 
 def known_match(case: dict, detail: dict) -> Optional[str]:
     """Exact rules of notes/findings/C13.json (all three are refusals with XMLResourceOSError, nothing parsed)."""
+    seekable, kind, has_url = STATIC[case['channel']]
+    if case['role'] == 'included':
+        # C13-F2 seen through xs:include: the OSError of the included resource makes the loader skip the include
+        sk = [s for s in detail.get('seeks', []) if s['target'] == 0 and not s['ok']]
+        if (case['channel'] == 'url-nonseekable' and not case.get('refuse') and detail.get('outcome') == 'parsed'
+                and sk and sk[-1]['pos_before'] > sk[-1]['buf']):
+            return 'C13-F2'
+        return None
     if detail.get('exc') != 'XMLResourceOSError' or detail.get('outcome') != 'oserror':
         return None
-    seekable, kind, has_url = STATIC[case['channel']]
-    if seekable or case['role'] == 'included':
+    if seekable:
         return None
     if kind == 'other' and not has_url:
         return 'C13-F3'                                   # non-seekable text stream: can never be defused
@@ -565,7 +572,12 @@ def explore(ctx: Ctx, drv: Optional[Driver], full: bool) -> None:
                                     reqs.append({'op': 'plan', 'mode': mode, 'base': base_class(eff_base), 'seekable': seekable,
                                                  'io': kind, 'opener': ch.endswith('-opener'), 'url': has_url,
                                                  'must_refuse': p['refuse'], 'scan_end': scan_end, 'buf_len': buf_len})
-                                    pend.append((case, {'plan': plan, 'outcome': out['outcome'], 'defused': plan != 'no-defuse'}))
+                                    res_outcome = out['outcome']
+                                    if role == 'included' and calls:
+                                        # the loader turns an OSError of an included resource into a skipped include
+                                        res_outcome = {'ok': 'parsed', 'XMLResourceForbidden': 'forbidden',
+                                                       'XMLResourceOSError': 'oserror'}.get(calls[-1]['result'], out['outcome'])
+                                    pend.append((case, {'plan': plan, 'outcome': res_outcome, 'defused': plan != 'no-defuse'}))
         if drv is not None:
             for (case, impl), m in zip(pend, drv.query(reqs)):
                 ctx.traces += 1
@@ -597,8 +609,8 @@ def reader_scripts(ctx: Ctx, drv: Driver) -> None:
     from xmlschema.utils.streams import DefusableReader
     rng = ctx.rng
     reqs, impls, cases = [], [], []
-    for k in range(ctx.pick(400, 4000)):
-        size = rng.choice([0, 100, 8192, 8192, 10000, 16384, 65536])
+    for k in range(ctx.pick(300, 3000)):
+        size = rng.choice([0, 100, 8192, 8192, 8192, 9000, 10000, 16384]) if rng.random() < 0.93 else 65536
         B = max(size, 8192)
         length = rng.choice([0, 1, 100, B - 1, B, B + 1, 2 * B, rng.randint(0, 3 * B)])
         ops = []
@@ -657,9 +669,6 @@ def run(ctx: Ctx, driver_ok: bool) -> None:
     explore(ctx, drv, full=not ctx.quick())
     ctx.extra['exhaustive'] = not ctx.quick()
     ctx.extra['known_findings_file'] = 'notes/findings/C13.json'
-    for e in load_known():
-        if ctx.known_hits.get(e['id']):
-            print(f"KNOWN-FINDING: property=C13 {e['id']} {e['what']} [{ctx.known_hits[e['id']]} matching case(s)]")
 
 
 def search(ctx: Ctx) -> None:
